@@ -23,6 +23,7 @@ func c27(r *core.Run) {
 	w := r.W
 	c27KeyAgreesWithItems(r)
 	c27RoutesPersisted(r)
+	c27PathRemovers(r)
 	const T = "pkg/routetab.Table"
 	const P = "pkg/routetab.pendCallResTab"
 	la := core.NewLockAnalysis(w, "pkg/routetab")
